@@ -13,7 +13,7 @@ PROPERTY = "C13"
 LEVEL = "model_checking"
 OPTIONS = {"quick": {"max_paths": 100000, "unit_budget_s": 900}, "thorough": {"max_paths": 1000000, "unit_budget_s": 3000}}
 BOUNDS = {
-    "quick": {"values": "0..3 symbolic octets per assertion value / substring component (all 256 values each)", "attributes": "every RFC 4512 attribute description of length 1..3 (symbolic, incl. options) in one leaf at a time, a symbolic letter elsewhere", "trees": "every leaf kind alone; and/or/not over leaves; depth-3 mixes; not^40 / and-or^40 chains", "substrings": "every presence combination of initial / 0..2 any / final (at least one component, components non-empty)"},
+    "quick": {"values": "0..3 symbolic octets per assertion value / substring component (all 256 values each)", "attributes": "every RFC 4512 attribute description of length 1..3 (symbolic, incl. options) in one leaf at a time, a symbolic letter elsewhere", "trees": "every leaf kind alone; and/or/not over leaves; and/or with members of the same kind (equal members included); depth-3 mixes; not^40 / and-or^40 chains", "substrings": "every presence combination of initial / 0..2 any / final (at least one component, components non-empty)"},
     "thorough": {"values": "0..4 octets", "attributes": "length 1..5", "trees": "quick + every leaf under and/not, fan-out 2 of every leaf pair subset"},
 }
 OUTSIDE = ["values longer than 4 octets (the escaping is per octet; adjacency effects need <= 2 neighbours)", "fan-out > 2, depth > 40", "filters outside RFC 4515's value space: empty and/or, substring filters with no or empty components, extensible match with neither attribute nor rule, matching rule spelled 'dn' (documented preconditions)"]
@@ -47,6 +47,11 @@ def units(tier):
         add(f"and1_{lk}", ["and", [[lk]]], vlen=2, alen=1)
         other = LEAF_KINDS[(i + 7) % len(LEAF_KINDS)]
         add(f"or2_{lk}_{other}", ["or", [[lk], [other]]], vlen=1, alen=1)
+    # members of the same kind: with symbolic contents they can be EQUAL (and/or are lists for the
+    # caller; a repeated member must survive)
+    for lk in ("eq", "present", "sub_a", "ext_ar", "approx"):
+        add(f"and2_same_{lk}", ["and", [[lk], [lk]]], vlen=1, alen=1)
+    add("or3_same_eq", ["or", [["eq"], ["present"], ["eq"]]], vlen=1, alen=1)
     add("d3a", ["and", [["or", [["eq"], ["not", ["sub_iaf"]]]], ["ext_ardn"]]], vlen=1, alen=1)
     add("d3b", ["not", ["and", [["or", [["present"]]], ["approx"]]]], vlen=2, alen=2)
     chain = ["eq"]
@@ -63,6 +68,7 @@ def units(tier):
         (["and", [["eq"], ["or", [["sub_iaf"], ["present"]]]]], "a*(b)\\\x00\xff", "cn;lang-en"),
         (["not", ["ext_ardn"]], "*", "2.5.4.3"),
         (["or", [["ge"], ["le"], ["approx"], ["sub_aa"]]], " x ", "o"),
+        (["and", [["eq"], ["present"], ["eq"], ["not", ["eq"]], ["not", ["eq"]]]], "v", "cn"),
     ]):
         add(f"concrete{i}", spec, vlen=1, alen=1, concrete=[vb, at])
     add("history_of_failures", ["and", [["eq"], ["not", ["sub_iaf"]]]], vlen=1, alen=1, history=40000)
